@@ -10,7 +10,8 @@ from vmc import core, e1, ref, space
 PROPERTY = "C18"
 ENGINE = "E1 schema-space"
 RULE = ("every container schema up to depth 3 over {int, date, any} leaves x every subset N of {list, dict, set, deque, OrderedDict} as "
-        "no_copy_collections (via codec default_dialect, Config.dialect, call dialect) plus the three format dialects x values with "
+        "no_copy_collections (via codec default_dialect, Config.dialect, call dialect, and two sources at once where the most specific listing "
+        "applies even when empty) plus the three format dialects x values with "
         "non-empty containers at every level: the set of mutable containers shared by identity between value and output must equal the "
         "model's prediction exactly (origin in N and conversion-free elements, Any positions excepted); the value is unchanged; decoding "
         "shares no typed container with its input and leaves it unchanged. Non-trivial: the value holds at least one non-empty mutable container.")
@@ -24,7 +25,7 @@ MUTABLE = (list, dict, set, collections.deque, bytearray)
 
 def bounds(tier):
     return dict(tier=tier, schemas=len(_schemas(tier)), no_copy_subsets=32, leaves=["int", "date", "any", "annotated SerializableType returning its own list"],
-                routes=["codec default_dialect", "Config.dialect", "call dialect", "orjson/msgpack/toml dialects"], max_depth=3)
+                routes=["codec default_dialect", "Config.dialect", "call dialect", "orjson/msgpack/toml dialects", "call dialect over Config.dialect (6 listing pairs, empty and absent listings included)", "Config.dialect over the orjson mixin's dialect (4 listings)"], max_depth=3)
 
 
 def wrap(e):
@@ -126,7 +127,7 @@ def predict(d, v, N, shared, anyzone, ctx):
         # a nested dataclass is serialized by its own method: a codec's default_dialect reaches it, the holder's
         # Config.dialect or a call dialect does not (the nested class did not opt in)
         info = ctx.info[d]
-        Nn = N if NESTED_INHERITS[0] else set()
+        Nn = N if NESTED_INHERITS[0] is True else set(NESTED_INHERITS[0] or ())
         for (e, _), name in zip(d[2], info["fields"]):
             predict(e, getattr(v, name), Nn, shared, anyzone, ctx)
         return
@@ -164,6 +165,8 @@ def _mark_any(d, v, anyzone):
 
 def _dialect(N):
     from mashumaro.dialect import Dialect
+    if N == ("-",):
+        return type("NC", (Dialect,), {})
     real = {"list": list, "dict": dict, "set": set, "deque": collections.deque, "OrderedDict": collections.OrderedDict}
     return type("NC", (Dialect,), {"no_copy_collections": tuple(real[n] for n in N)})
 
@@ -183,16 +186,32 @@ def run_unit(unit, only=None):
     subsets = [tuple(s) for r in range(len(NC_TYPES) + 1) for s in itertools.combinations(NC_TYPES, r)]
     routes = [("codec", N) for N in subsets] + [("cfgdialect", N) for N in subsets[::3]] + [("calldialect", N) for N in subsets[1::3]]
     routes += [("fmt-orjson", ("list", "dict")), ("fmt-msgpack", ("list", "dict")), ("fmt-toml", ("list", "dict"))]
+    # two sources at once: the listing of the most specific source that HAS one applies, an empty listing included
+    # (written hi + ("|",) + lo; "-" = that dialect does not mention the option)
+    LD = ("list", "dict")
+    for hi, lo in (((), LD), (("list",), LD), (LD, ()), (("dict",), ("list",)), (("-",), LD), (("deque",), ("-",))):
+        routes.append(("call>cfg", hi + ("|",) + lo))
+    for hi in ((), ("list",), ("dict", "deque"), ("-",)):
+        routes.append(("cfg>orjson", hi + ("|",) + LD))
 
     def V(clause, route, N, idx, detail, oc=""):
+        N = Nfull[0]
         res.violation(f"{clause}|{space.show(d)}|{route}|{N}|{oc}", clause, oc or clause,
                       dict(desc=d, route=route, N=N, value_index=idx), detail)
+    Nfull = [()]
     for route, N in routes:
         if only is not None and only[:2] != (route, N):
             continue
-        NESTED_INHERITS[0] = route not in ("cfgdialect", "calldialect")
+        NESTED_INHERITS[0] = route not in ("cfgdialect", "calldialect", "call>cfg")
         NATIVE_LEAVES.clear()
-        NATIVE_LEAVES.update({"fmt-orjson": {"date"}, "fmt-toml": {"date"}}.get(route, ()))
+        NATIVE_LEAVES.update({"fmt-orjson": {"date"}, "fmt-toml": {"date"}, "cfg>orjson": {"date"}}.get(route, ()))
+        Nfull[0] = N
+        if "|" in N:
+            hi, lo = N[:N.index("|")], N[N.index("|") + 1:]
+            N = lo if hi == ("-",) else hi
+            N = () if N == ("-",) else N
+            if route == "cfg>orjson":
+                NESTED_INHERITS[0] = lo      # the format dialect reaches nested classes, the holder's Config.dialect does not
         with space.Ctx() as ctx:
             try:
                 h = space.hint(d, ctx)
@@ -206,6 +225,21 @@ def run_unit(unit, only=None):
                     ctx.ns["_NC"] = _dialect(N)
                     E = e1.EntryPoints("mixin", h, ctx, holder_config={"dialect": "_NC"})
                     enc = E.encode
+                elif route == "call>cfg":
+                    ctx.ns["_LO"] = _dialect(lo)
+                    hn = ctx.inject(h, "_h")
+                    W = ctx.execute("CW", f"@dataclass\nclass CW(DataClassDictMixin):\n    x: {hn}\n    class Config(BaseConfig):\n"
+                                          f"        code_generation_options = [ADD_DIALECT_SUPPORT]\n        dialect = _LO\n")
+                    nc = _dialect(hi)
+                    enc = lambda v, W=W, nc=nc: W(v).to_dict(dialect=nc)["x"]   # noqa: E731
+                elif route == "cfg>orjson":
+                    from mashumaro.mixins.orjson import DataClassORJSONMixin
+                    ctx.ns["_HI"] = _dialect(hi)
+                    ctx.ns["DataClassORJSONMixin"] = DataClassORJSONMixin
+                    hn = ctx.inject(h, "_h")
+                    W = ctx.execute("CW", f"@dataclass\nclass CW(DataClassORJSONMixin):\n    x: {hn}\n    class Config(BaseConfig):\n"
+                                          f"        dialect = _HI\n")
+                    enc = lambda v, W=W: W(v).to_jsonb(encoder=lambda doc, **kw: doc)["x"]   # noqa: E731
                 else:
                     ctx.ns["_NC"] = _dialect(N)
                     hn = ctx.inject(h, "_h")
